@@ -24,3 +24,6 @@ func VerifRouteLines(svc *protogen.Service, m *protogen.Method) ([]string, error
 	err := (&Generator{}).generateRouteEntry(p, svc, m)
 	return lines, err
 }
+
+// VerifGenerateWith runs the TS server generator with the given plugin.
+func VerifGenerateWith(p *protogen.Plugin) error { return New(p).Generate() }
